@@ -167,7 +167,10 @@ func (p *process) tryRestart(v any) {
 	// a remote node. By doing this, we can keep dialing until it comes
 	// back up. NOTE: not sure if that is the best option. What if that
 	// node never comes back up again?
-	if msg, ok := v.(*InternalError); ok {
+	// (a nil *InternalError has nothing to report: it is handled like any
+	// other panic value instead of being dereferenced here, in the recover
+	// handler, where a second panic takes the whole process down)
+	if msg, ok := v.(*InternalError); ok && msg != nil {
 		p.stopReceiver()
 		slog.Error(msg.From, "err", msg.Err)
 		time.Sleep(p.Opts.RestartDelay)
